@@ -462,6 +462,7 @@ func lexInsideAction(l *lexer) stateFn {
 			l.emit(itemAnd)
 		} else {
 			l.backup()
+			return l.errorf("unexpected '&' (the and-operator is '&&')") // it used to be glued to the next token
 		}
 	case r == '<':
 		if l.next() == '=' {
